@@ -106,7 +106,22 @@ pub fn run(ctx: &'static Ctx) {
             s += 1;
         }
     }
-    ctx.engine("E4.strings", json!({"pairs": s}));
+    // values that coincide with the string encoding's own framing or with characters a normalising helper would
+    // touch: NUL / whitespace / quote / non-ASCII at the start, in the middle and at the end, alone and doubled
+    let specials = ["\0", "\0\0", " ", "  ", "\n", "\t", "\r\n", "\"", "'", "\\", "\u{7f}", "\u{e9}", "\u{a0}", "\u{2028}", "\u{1f600}"];
+    for body_len in [0usize, 1, 2, 3, 7, 62, 63, 64, 255] {
+        let body = "b".repeat(body_len);
+        for sp in specials {
+            for st in [format!("{}{}", body, sp), format!("{}{}", sp, body), format!("{}{}{}", body, sp, body), format!("{}{}{}", sp, body, sp)] {
+                let what = format!("{:?}", st.chars().take(12).collect::<String>());
+                same(ctx, "alt:string:special", st.len() as u64, &T::Str(st.clone(), false), &T::Str(st.clone(), true), || format!("string {} ({} bytes)", what, st.len()));
+                // and as a Name value / package element, where the string sits inside another object
+                same(ctx, "alt:string:special-nested", st.len() as u64, &T::Package(vec![T::Str(st.clone(), false), T::One]), &T::Package(vec![T::Str(st.clone(), true), T::One]), || format!("package holding string {}", what));
+                s += 2;
+            }
+        }
+    }
+    ctx.engine("E4.strings", json!({"pairs": s, "special_values": specials.len()}));
 
     // ---- usize vs u64 over the C08 structured set
     let mut vals: Vec<u64> = vec![];
